@@ -3,6 +3,7 @@
 mod c05;
 mod c11;
 mod c13;
+mod c15;
 mod c16;
 mod c17;
 mod c20;
@@ -22,6 +23,7 @@ fn main() {
         "c20" => c20::run(&opts),
         "hist" => hist::run(&opts),
         "c13" => c13::run(&opts),
+        "c15" => c15::run(&opts),
         "c16" => c16::run(&opts),
         "c17" => c17::run(&opts),
         "c11" => c11::run(&opts),
